@@ -139,9 +139,13 @@ func IPv4(s string) (member, specified bool) {
 func isHex(c byte) bool { return isDigit(c) || (c >= 'a' && c <= 'f') || (c >= 'A' && c <= 'F') }
 
 // IPv6 per RFC 4291 text form, hexadecimal groups only. specified=false when the text mixes ':' and '.'
-// (embedded IPv4), carries a zone, or denotes an IPv4-mapped address (::ffff:0:0/96).
+// (embedded IPv4) or denotes an IPv4-mapped address (::ffff:0:0/96).
 func IPv6(s string) (member, specified bool) {
-	if strings.ContainsAny(s, ".%") && strings.Contains(s, ":") {
+	if strings.Contains(s, "%") {
+		// a zone suffix ("fe80::1%eth0", RFC 4007) is a scoped-address notation, not part of the address text form
+		return false, true
+	}
+	if strings.Contains(s, ".") && strings.Contains(s, ":") {
 		return false, false
 	}
 	if !strings.Contains(s, ":") {
